@@ -111,6 +111,51 @@ def r20a(rep, prog):
     return count
 
 
+def owner_of_expr(prog, fn, expr):
+    """the variable an owner expression denotes: a plain variable, or the static / global a repo accessor returns by reference"""
+    v = ex.var_of(expr)
+    if v is not None:
+        return v
+    s = expr.strip_all()
+    if s.k in ('CallExpr', 'CXXMemberCallExpr') and s.callee and s.callee.get('in_repo') and s.callee_id is not None:
+        rt = prog.type(s.callee.get('ret')) or {}
+        hf = prog.fn_of_fref(s.callee_id)
+        if rt.get('ref') and hf is not None and hf.body is not None:
+            vs = set(ex.var_of(r.c[0]) if r.c else None for r in ex.returns_of(hf))
+            if len(vs) == 1 and None not in vs:
+                v = list(vs)[0]
+                if prog.vars[v]['kind'] in ('static_local', 'global', 'static_member'):
+                    return v
+    return None
+
+
+def moved_on(prog, fn, local):
+    """(statement, new owner variable) pairs where the local smart pointer hands its object over: X = std::move(local), X.swap(local),
+    local.swap(X), X.reset(local.release())"""
+    out = []
+    for n in fn.walk():
+        if n.k == 'CXXOperatorCallExpr' and n.op == '=' and len(n.c) >= 3:
+            r = n.c[2].strip_all()
+            if r.k == 'CallExpr' and r.callee and r.callee['g'] in ('std::move', 'std::forward') and r.args() and ex.var_of(r.args()[0]) == local:
+                out.append((n, owner_of_expr(prog, fn, n.c[1])))
+        if n.k == 'CXXMemberCallExpr' and n.callee and n.callee['name'] == 'swap' and n.args():
+            if ex.var_of(n.args()[0]) == local:
+                out.append((n, owner_of_expr(prog, fn, n.object_arg())))
+            elif ex.var_of(n.object_arg()) == local:
+                out.append((n, owner_of_expr(prog, fn, n.args()[0])))
+        if n.k == 'CallExpr' and n.callee and n.callee['g'] == 'std::swap' and len(n.args()) == 2:
+            a, b = n.args()
+            if ex.var_of(a) == local:
+                out.append((n, owner_of_expr(prog, fn, b)))
+            elif ex.var_of(b) == local:
+                out.append((n, owner_of_expr(prog, fn, a)))
+        if n.k == 'CXXMemberCallExpr' and n.callee and n.callee['name'] == 'reset' and n.args():
+            r = n.args()[0].strip_all()
+            if r.k == 'CXXMemberCallExpr' and r.callee and r.callee['name'] == 'release' and ex.var_of(r.object_arg()) == local:
+                out.append((n, owner_of_expr(prog, fn, n.object_arg())))
+    return out
+
+
 def classify_new(prog, fn, n):
     """where does the freshly created control object go?"""
     cfg = fn.cfg
@@ -127,10 +172,10 @@ def classify_new(prog, fn, n):
     if up is None:
         return 'undecided', 'no consumer'
     if up.k == 'CXXMemberCallExpr' and up.callee and up.callee['name'] == 'reset':
-        owner = ex.var_of(up.object_arg())
+        owner = owner_of_expr(prog, fn, up.object_arg())
         return judge_owner(prog, fn, up, owner)
     if up.k == 'CXXOperatorCallExpr' and up.op == '=' and len(up.c) >= 3 and up.c[2].is_ancestor_of(cur) | (up.c[2] is cur):
-        owner = ex.var_of(up.c[1])
+        owner = owner_of_expr(prog, fn, up.c[1])
         return judge_owner(prog, fn, up, owner)
     if up.k == 'BinaryOperator' and up.op == '=':
         owner = ex.var_of(up.c[0])
@@ -142,12 +187,18 @@ def classify_new(prog, fn, n):
             for r in ex.returns_of(fn):
                 if r.c and ex.var_of(r.c[0]) == up.decl_id:
                     return 'ok', 'owner %s is returned to the caller' % v['name']
+            mv = moved_on(prog, fn, up.decl_id)
+            if mv:
+                return judge_owner(prog, fn, mv[0][0], mv[0][1])
             return 'violation', 'owner %s is a local: destroyed when %s returns' % (v['name'], fn.g)
         if v['kind'] in ('static_local', 'global', 'static_member'):
             return 'violation', 'static owner %s is initialised once: a second call does not change the limit' % v['name']
     if up.k == 'ReturnStmt':
         return 'ok', 'owner is returned to the caller'
     return 'undecided', 'consumer %s not in the idiom table' % up.k
+
+
+_moving = [0]
 
 
 def judge_owner(prog, fn, stmt, owner):
@@ -162,6 +213,13 @@ def judge_owner(prog, fn, stmt, owner):
         for r in ex.returns_of(fn):
             if r.c and ex.var_of(r.c[0]) == owner:
                 return 'ok', 'local owner %s is returned to the caller' % v['name']
+        mv = moved_on(prog, fn, owner)
+        if mv and not _moving[0]:
+            _moving[0] += 1
+            try:
+                return judge_owner(prog, fn, mv[0][0], mv[0][1])
+            finally:
+                _moving[0] -= 1
         return 'violation', 'owner %s is a local of %s: the control object dies at return' % (v['name'], fn.g)
     if v['kind'] == 'param':
         bt = prog.type(v['ty'])
@@ -251,6 +309,13 @@ def r20b(rep, prog):
                 rep.ok('R20c', kcall, main, whatv, 'option value passed directly')
             elif xv is None:
                 rep.undecided('R20c', kcall, main, whatv, 'argument `%s` is not a variable' % (arg.text(30) if arg is not None else '?'))
+            elif knob_value_cases(main, arg) is not None and len(ex.assignments_to(main, xv)) == 1:
+                cases = knob_value_cases(main, arg)
+                if cases['nonzero'] == 'req':
+                    rep.ok('R20c', kcall, main, whatv, 'for a non-zero --cores the argument is the requested value')
+                else:
+                    rep.violation('R20c', kcall, main, whatv, 'for a non-zero --cores the argument evaluates to `%s`, not the requested value' % cases['nonzero'].text(40),
+                                  key='R20c|%s|value' % os.path.basename(prog.tu))
             else:
                 defs = ex.assignments_to(main, xv)
                 from_opt = [d for (d, rhs) in defs if rhs is not None and common.option_atom(rhs) == ('opt', 'cores')]
@@ -316,6 +381,49 @@ def _nonzero_value(n):
     return None
 
 
+def knob_value_cases(main, arg, depth=0):
+    """{'zero': node|'req', 'nonzero': node|'req'}: what the expression evaluates to when --cores is 0 / is not 0, for the value-flow shape
+    const locals + `?:` (each local defined exactly once); None when the expression is outside that shape.  'req' is the requested value."""
+    if depth > 4 or arg is None:
+        return None
+    if common.option_atom(arg) == ('opt', 'cores'):
+        return {'zero': 'req', 'nonzero': 'req'}
+    s = arg.strip_all()
+    v = ex.var_of(s)
+    if v is not None:
+        defs = ex.assignments_to(main, v)
+        if len(defs) != 1 or defs[0][1] is None:
+            return None
+        return knob_value_cases(main, defs[0][1], depth + 1)
+    if s.k == 'ConditionalOperator':
+        c = s.cond.strip_all()
+        # zero test of something that is the requested value in both cases
+        pol = None     # True: condition holds iff value is zero
+        tested = None
+        if c.k == 'BinaryOperator' and c.op in ('==', '!=', '>', '<', '>=', '<='):
+            l, r, op = c.c[0], c.c[1], c.op
+            if r.strip_all().cv is None and l.strip_all().cv is not None:
+                l, r = r, l
+                op = {'>': '<', '<': '>', '>=': '<=', '<=': '>='}.get(op, op)
+            k = r.strip_all().cv
+            if (op, k) in (('==', 0), ('<', 1), ('<=', 0)):
+                pol, tested = True, l
+            elif (op, k) in (('!=', 0), ('>', 0), ('>=', 1)):
+                pol, tested = False, l
+        elif c.k == 'UnaryOperator' and c.op == '!':
+            pol, tested = True, c.c[0]
+        else:
+            pol, tested = False, c
+        tc = knob_value_cases(main, tested, depth + 1) if tested is not None else None
+        if tc != {'zero': 'req', 'nonzero': 'req'}:
+            return None
+        zero_branch, nz_branch = (s.then, s.els) if pol else (s.els, s.then)
+        zc = knob_value_cases(main, zero_branch, depth + 1)
+        nc = knob_value_cases(main, nz_branch, depth + 1)
+        return {'zero': zc['zero'] if zc else zero_branch, 'nonzero': nc['nonzero'] if nc else nz_branch}
+    return None
+
+
 def knob_zero(rep, prog, main, rule):
     """R11d: --cores=0 (the documented "use all cores") never reaches the knob as 0."""
     from .c10 import guards_formula, implies
@@ -330,6 +438,17 @@ def knob_zero(rep, prog, main, rule):
             continue
         xv = ex.var_of(arg)
         direct = common.option_atom(arg) == ('opt', 'cores')
+        cases = knob_value_cases(main, arg)
+        if cases is not None and cases['zero'] != 'req':
+            nz = _nonzero_value(cases['zero'])
+            if nz is True:
+                rep.ok(rule, kcall, main, what, 'for --cores=0 the argument evaluates to `%s`, a positive thread count' % cases['zero'].text(40))
+                continue
+            if nz is False:
+                rep.violation(rule, kcall, main, what, 'for --cores=0 the argument evaluates to 0', key='%s|%s|zero' % (rule, os.path.basename(prog.tu)))
+                continue
+            rep.undecided(rule, kcall, main, what, 'for --cores=0 the argument evaluates to `%s`, not a recognised positive value' % cases['zero'].text(40))
+            continue
         if xv is None and not direct:
             nz = _nonzero_value(arg)
             if nz is True:
@@ -432,6 +551,23 @@ def _atom(leaf):
     a = common.option_atom(leaf)
     if a is not None:
         return ex.f_atom(a)
+    s0 = leaf.strip_all()
+    if s0.k == 'BinaryOperator' and s0.op in ('==', '!=', '>', '<', '>=', '<='):
+        # vm.count("x") compared with 0 / 1 (count is 0 or 1)
+        l, r, op = s0.c[0], s0.c[1], s0.op
+        if common.option_atom(r) is not None and l.strip_all().cv is not None:
+            l, r = r, l
+            op = {'>': '<', '<': '>', '>=': '<=', '<=': '>='}.get(op, op)
+        a = common.option_atom(l)
+        k = r.strip_all().cv
+        if a is not None and a[0] == 'count' and k is not None:
+            if (op, k) in (('!=', 0), ('>', 0), ('>=', 1), ('==', 1)):
+                return ex.f_atom(a)
+            if (op, k) in (('==', 0), ('<', 1), ('<=', 0), ('!=', 1)):
+                return ex.f_not(ex.f_atom(a))
+        if a is not None and a[0] == 'opt' and k in (0, 1) and op in ('==', '!=') and (l.strip_all().type or {}).get('bool'):
+            pos = (op == '==') == (k == 1)
+            return ex.f_atom(a) if pos else ex.f_not(ex.f_atom(a))
     v = ex.var_of(leaf)
     if v is not None:
         d = ex.unique_def(leaf.fn, v)
